@@ -139,12 +139,59 @@ pub fn replay(cases: &[Value], out: &mut Out) {
 				v
 			}));
 		}
+		let mut extra = Some(under_response_limit().await);
 		for h in handles {
-			for (i, k, (probs, detail)) in h.await.unwrap() {
+			for (i, k, (mut probs, detail)) in h.await.unwrap() {
+				if let Some(e) = extra.take() {
+					probs.extend(e); // (reported with the first verdict)
+				}
 				out.problems(i, k, probs, detail);
 			}
 		}
 	});
+}
+
+/// "Only the response-size limit may replace the array by a single error": a batch of two valid calls whose reply array is a
+/// few bytes above max_response_body_size (twenty: more than any per-entry slack), the second reply being the big one.  Either the single -32011 object comes back, or an
+/// array - and then each element is what the entry gets when it is sent alone (never a per-entry "too big" of the batch's making).
+async fn under_response_limit() -> Vec<(String, Value)> {
+	let mut probs = vec![];
+	let wide = Rig::new(RigCfg::default());
+	let e1 = r#"{"jsonrpc":"2.0","id":1,"method":"echo","params":["small"]}"#.to_string();
+	let e2 = format!(r#"{{"jsonrpc":"2.0","id":2,"method":"echo","params":["{}"]}}"#, "w".repeat(400));
+	let batch = format!("[{e1},{e2}]");
+	let full = wide.http_json(batch.as_bytes()).await;
+	let alone: Vec<Value> = vec![wide.http_json(e1.as_bytes()).await.json().unwrap_or(Value::Null), wide.http_json(e2.as_bytes()).await.json().unwrap_or(Value::Null)];
+	if full.json().map(|v| v.as_array().map(|a| a.len())) != Some(Some(2)) {
+		return vec![("http:batch:under-response-limit:reference-batch-not-answered-by-an-array".into(), json!({"body": String::from_utf8_lossy(&full.body)}))];
+	}
+	for (tr, limit) in [("http", full.body.len() as u32 - 20), ("ws", full.body.len() as u32 - 20)] {
+		let tight = Rig::new(RigCfg { max_resp: limit, ..Default::default() });
+		let got: Option<Value> = if tr == "http" {
+			tight.http_json(batch.as_bytes()).await.json()
+		} else {
+			match ws_exchange(&tight, &batch, "probe-url", false).await {
+				Ok(frames) => frames.iter().filter_map(|f| serde_json::from_str::<Value>(f).ok()).find(|v| v.is_array() || v["id"].is_null()),
+				Err(_) => None,
+			}
+		};
+		match got {
+			Some(Value::Array(a)) => {
+				for (j, el) in a.iter().enumerate() {
+					let same = alone.iter().any(|x| x == el);
+					if !same {
+						probs.push((
+							format!("{tr}:batch:under-response-limit:element-differs-from-the-entry-sent-alone"),
+							json!({"limit": limit, "element": el.to_string().chars().take(200).collect::<String>(), "position": j}),
+						));
+					}
+				}
+			}
+			Some(v) if v["error"]["code"] == json!(-32011) && v["id"].is_null() => {}
+			other => probs.push((format!("{tr}:batch:under-response-limit:neither-array-nor-32011"), json!({"got": other.map(|v| v.to_string().chars().take(200).collect::<String>())}))),
+		}
+	}
+	probs
 }
 
 /// all frames a WS connection produces for `text`, followed by a probe, up to EOF after a graceful stop
